@@ -26,12 +26,27 @@ ASSUME_PATTERNS = [
 
 
 def scan_assumptions(text):
+    """Every assumption marker in the generated file, with the item it applies to (an attribute on a line of
+    its own is reported together with the signature line(s) that follow it, so the evidence names the function
+    and shows its assumed contract)."""
     found = []
-    for ln, l in enumerate(text.split('\n'), 1):
+    lines = text.split('\n')
+    for ln, l in enumerate(lines, 1):
         code = l.split('//')[0]
         for pat, name in ASSUME_PATTERNS:
             if re.search(pat, code):
-                found.append(dict(kind=name, line=ln, text=l.strip()[:200]))
+                shown = l.strip()
+                if re.fullmatch(r'\s*#\[[^\]]*\]\s*', code):
+                    extra = []
+                    for nxt in lines[ln:ln + 8]:
+                        t = nxt.split('//')[0].strip()
+                        if not t or t.startswith('#['):
+                            continue
+                        extra.append(t)
+                        if '{' in t or t.endswith(';'):
+                            break
+                    shown = shown + ' ' + ' '.join(extra)
+                found.append(dict(kind=name, line=ln, text=shown[:400]))
     return found
 
 
